@@ -175,7 +175,7 @@ def _exhaustive():
 def gen(ctx):
     rng = ctx.rng
     cases = []
-    for _ in range(ctx.n(400, 8000)):
+    for _ in range(ctx.n(1200, 8000)):
         cases.append(_random_case(rng))
     for _ in range(ctx.n(3, 20)):
         cases.extend(_malformed_cases(rng))
@@ -239,8 +239,8 @@ def observe(case):
     with warnings.catch_warnings():
         warnings.simplefilter("ignore")
         out = []
+        dm = G.mkdm(case["dm"])  # one matrix, all the runs of the case on it (transform must not touch it)
         for run in case["runs"]:
-            dm = G.mkdm(case["dm"])
             try:
                 flt = _build(run)
             except Exception as e:
@@ -251,10 +251,8 @@ def observe(case):
             except Exception as e:
                 out.append({"err": G.err_name(e), "stage": "transform", "msg": str(e)[:120]})
                 continue
-            o = _dm_obs(res)
-            o["input_after"] = _dm_obs(dm)
-            out.append(o)
-        return {"runs": out}
+            out.append(_dm_obs(res))
+        return {"runs": out, "input_after": _dm_obs(dm)}
 
 
 # --------------------------------------------------------------------------- model side
@@ -433,9 +431,11 @@ def judge(case, obs, replies):
         if o["criteria"] != dm["criteria"] or o["objectives"] != dm["objectives"] or o["weights"] != dm["weights"]:
             prop("criteria / objectives / weights were changed by a filter",
                  [dm["criteria"], dm["objectives"], dm["weights"]], [o["criteria"], o["objectives"], o["weights"]])
-        ia = o["input_after"]
-        if ia["alts"] != dm["alternatives"] or ia["matrix"] != dm["matrix"] or ia["criteria"] != dm["criteria"]:
-            prop("the input decision matrix was modified by transform", None, ia)
+    ia = obs["input_after"]
+    if ia["alts"] != dm["alternatives"] or ia["matrix"] != dm["matrix"] or ia["criteria"] != dm["criteria"] or \
+            ia["objectives"] != dm["objectives"] or ia["weights"] != dm["weights"]:
+        out.append({"kind": "property", "what": "the input decision matrix was modified by a filter's transform",
+                    "expected": dm, "observed": ia, "case": case})
     return out
 
 
